@@ -65,16 +65,9 @@ def make_case(seed, tier):
         ops.append({'op': 'resume', 'target': 'root' if rng.random() < 0.6
                     else tgt, 'at_step': b})
     # a final resume on the root so that nothing stays paused
-    ops.append({'op': 'resume', 'target': 'root', 'at_step': 400,
-                'keep': True})
-    ops.append({'op': 'resume', 'target': 'root', 'at_step': 600,
-                'keep': True})
+    case['auto_resume'] = 8
     case['ops'] = ops
-    case['base_ops'] = [{'op': 'resume', 'target': 'root', 'at_step': 400,
-                         'keep': True},
-                        {'op': 'resume', 'target': 'root', 'at_step': 600,
-                         'keep': True}] \
-        if has_pause else []
+    case['base_ops'] = []
     case['settle'] = 30
     return case
 
@@ -179,20 +172,33 @@ def evaluate(case, res):
             t.pop('state_info_class', None)
         for w in c['wf'].values():
             w.pop('state_info_class', None)
+    # a task started twice: IDLE at the time of a resume, two start_task
+    # handlers created an action execution each
+    extra = ''
+    starts = {}
+    for e in res.recorder.events:
+        if e.op == 'insert' and e.committed and e.table == trace.ACT and \
+                e.task.startswith('rpc:start_task'):
+            key = (e.vals.get('task_execution_id'),
+                   (e.vals.get('runtime_context') or {}).get('index'))
+            starts.setdefault(key, set()).add(e.task)
+    if any(len(v) > 1 for v in starts.values()):
+        extra = ' double_start_after_resume'
+    # a task force-failed (structural error) while its execution was PAUSED
+    paused_now = set()
+    for cno, step, actor, changes in hist.iterate():
+        for table, id_, old, new in changes:
+            if table == trace.TASK and new is not None and \
+                    new.get('state') == 'ERROR' and \
+                    'Failed to' in (new.get('state_info') or '') and \
+                    new.get('workflow_execution_id') in paused_now and \
+                    (hist.rows[trace.WF].get(
+                        new.get('workflow_execution_id')) or {}).get(
+                            'state') == 'PAUSED':
+                extra += ' paused_failure_dropped'
+        paused_now = set(i for i, w in hist.rows[trace.WF].items()
+                         if w.get('state') == 'PAUSED')
     if observe.canon_json(a) != observe.canon_json(b):
-        extra = ''
-        # a task started twice: IDLE before the resume, two start_task
-        # handlers created an action execution each
-        starts = {}
-        for e in res.recorder.events:
-            if e.op == 'insert' and e.committed and \
-                    e.table == trace.ACT and \
-                    e.task.startswith('rpc:start_task'):
-                key = (e.vals.get('task_execution_id'),
-                       (e.vals.get('runtime_context') or {}).get('index'))
-                starts.setdefault(key, set()).add(e.task)
-        if any(len(v) > 1 for v in starts.values()):
-            extra = ' double_start_after_resume'
         out.append(('C10.differs_from_unpaused',
                     'paused/resumed run differs from the undisturbed run: '
                     '%s' % c02.first_diff(a, b), sig + extra))
@@ -201,7 +207,7 @@ def evaluate(case, res):
     if diffs:
         out.append(('C10.differs_from_unpaused',
                     'paused/resumed run differs from the reference: %s'
-                    % '; '.join(diffs[:4]), sig + ' vs-ref'))
+                    % '; '.join(diffs[:4]), sig + ' vs-ref' + extra))
     return out
 
 
